@@ -248,8 +248,16 @@ def oracle(prev, cur, pats):
         a, b = L0.get(k), L1.get(k)
         return a is not None and b is not None and a[:3] + a[4:] == b[:3] + b[4:] and a[3] != b[3]
     def involves_link(k):
+        # the object stays, but it is (or becomes) a symbolic link: retype link <-> file, re-spelled target
         a, b = L0.get(k), L1.get(k)
-        return (a is not None and a[0] == "l") or (b is not None and b[0] == "l")
+        return a is not None and b is not None and (a[0] == "l" or b[0] == "l")
+    def beside_dangling_link(k):
+        par = k.rsplit("/", 1)[0] if "/" in k else ""
+        for R in (R0, R1):
+            for q, v in R.items():
+                if v == "missing" and (q.rsplit("/", 1)[0] if "/" in q else "") == par:
+                    return True
+        return False
     def parent_unchanged(k):
         par = k.rsplit("/", 1)[0] if "/" in k else ""
         return par in L0 and L0.get(par) == L1.get(par)
@@ -258,6 +266,7 @@ def oracle(prev, cur, pats):
     hints["shape_links_only"] = bool(SD) and all(involves_link(k) for k in SD)
     added_removed = [k for k in D if (k in L0) != (k in L1)]
     hints["stale_listing"] = bool(pats) and any(parent_unchanged(k) for k in added_removed)
+    hints["truncated_listing"] = bool(pats) and bool(D) and any(beside_dangling_link(k) for k in added_removed)
     return must_T, must_S, hints
 
 def missed_key(cmd, hints):
@@ -268,11 +277,15 @@ def missed_key(cmd, hints):
             return "symlink-seen-through-tree"
         if hints["stale_listing"]:
             return "filtered-listing-stale-tree"
+        if hints["truncated_listing"]:
+            return "filtered-listing-truncated-tree"
         return "tree-missed-change"
     if hints["shape_links_only"]:
         return "symlink-seen-through-structure"
     if hints["stale_listing"]:
         return "filtered-listing-stale-structure"
+    if hints["truncated_listing"]:
+        return "filtered-listing-truncated-structure"
     return "structure-missed-change"
 
 # ------------------------------------------------------------------ generation
